@@ -20,7 +20,8 @@ class C16(Prop):
             "largest > 0; distinct = distinct (largest, truncated, length) triples")
     reach = ["pnlen_1", "pnlen_2", "pnlen_3", "pnlen_4", "skip_to_window_boundary", "largest_above_2_53",
              "largest_above_2_32", "reordered_packet", "duplicate_packet", "lost_packet", "space_initial", "space_handshake",
-             "space_application", "both_directions", "candidate_minus_window", "candidate_plus_window", "two_connections"]
+             "space_application", "both_directions", "candidate_minus_window", "candidate_plus_window", "two_connections",
+             "jump_in_packet_with_extension_frame", "zero_rtt_then_one_rtt"]
 
     def plan(self, tier):
         p = super().plan(tier)
@@ -45,6 +46,12 @@ class C16(Prop):
                             pk["pnlen"] = n
                             pk["skip"] = max(0, (1 << (8 * n - 1)) + B.choice([-3, -2, -1, 0]) - 1 - B.choice([0, 0, 1, 2]))
                             pk["boundary"] = True
+                            fr = pk.get("frames")
+                            if fr is not None and B.chance(30) and not (fr and fr[-1][0] == "stream" and not fr[-1][4]):
+                                # the packet that carries the jump ends in a one byte extension frame (IMMEDIATE_ACK): it is
+                                # authenticated, so it moves the reference whatever a receiver makes of its frames
+                                fr.append(["ext1", 0x1f])
+                                pk["ext_last"] = True
         conns = [conn]
         if R.chance(30):
             # a second, concurrent connection: packet-number state must be per connection
@@ -103,6 +110,8 @@ class C16(Prop):
         for i, c in enumerate(calls):
             _, port, isserver, space, before, trunc_hex, result_hex, ts = c
             side = "s" if isserver else "c"
+            if space == "RTT_O":
+                space = "RTT_1"     # the probe names the table entry the real code used; 0-RTT and 1-RTT share one space
             nbytes = len(trunc_hex) // 2
             trunc = int(trunc_hex, 16)
             got = int(result_hex, 16)
@@ -170,6 +179,11 @@ class C16(Prop):
             for pk in dm["pk"]:
                 if pk.get("boundary"):
                     out.count("reach:skip_to_window_boundary")
+                if pk.get("ext_last"):
+                    out.count("reach:jump_in_packet_with_extension_frame")
+        kinds = [pk["kind"] for f in t["frames"] if f["kept"] and f["d"] == "c" for pk in t["dmeta"][f["dg"]]["pk"]]
+        if "0rtt" in kinds and "1rtt" in kinds[kinds.index("0rtt"):]:
+            out.count("reach:zero_rtt_then_one_rtt")
 
 
 PROP = C16()
